@@ -1,4 +1,4 @@
-import RactorModel.Model.Factory
+import RactorModel.Model.FactoryOracle
 import Driver.Common
 
 /-! Driver for the `Factory` model (C13, C14, C15). Op / observation format: see
@@ -95,6 +95,64 @@ def parseOp? (ws : List String) : Option Op :=
 
 structure St where
   w : Option W := none
+  o : Option OSt := none
+  /-- clause prefix enabled for this run ("" = all) -/
+  only : String := ""
+
+def bracket? (ws : List String) (k : String) : Option (List String) := do
+  let v ← kv ws k
+  if v.startsWith "[" && v.endsWith "]" then
+    let inner := ((v.drop 1).dropEnd 1).toString
+    pure (if inner == "" then [] else inner.splitOn ",")
+  else none
+
+def parseReason? : String → Option Reason
+  | "TtlExpired" => some .ttlExpired | "Loadshed" => some .loadshed
+  | "Shutdown" => some .shutdown | "RateLimited" => some .rateLimited | _ => none
+
+def parseHook? : String → Option Hook
+  | "started" => some .started | "draining" => some .draining | "stopped" => some .stopped | _ => none
+
+def optQ? (s : String) : Option (Option Nat) := if s == "x" || s == "?" then some none else s.toNat?.map some
+
+/-- events observed from the implementation in one step -/
+def parseObs? (impl : String) : Option (List Ev) := do
+  let ws := words impl
+  let builds ← (← bracket? ws "build").mapM fun b => match b.splitOn "." with
+    | [w, a] => do pure (Ev.build (← w.toNat?) (← a.toNat?)) | _ => none
+  let starts ← (← bracket? ws "start").mapM fun b => match b.splitOn ":" with
+    | [a, i, k] => do pure (Ev.start (← a.toNat?) (← i.toNat?) (← k.toNat?)) | _ => none
+  let discs ← (← bracket? ws "disc").mapM fun b => match b.splitOn ":" with
+    | [r, i] => do pure (Ev.discard (← parseReason? r) (← i.toNat?) true) | _ => none
+  let hooks ← (← bracket? ws "hook").mapM fun b => (parseHook? b).map Ev.hook
+  let accs ← (← bracket? ws "acc").mapM fun b => match b.splitOn ":" with
+    | [i, r] => do pure (Ev.reply (← i.toNat?) (r != "a")) | _ => none
+  let live ← (← bracket? ws "live").mapM (·.toNat?)
+  let up ← kv ws "up"
+  let q ← optQ? (← kv ws "q"); let act ← optQ? (← kv ws "act"); let cap ← optQ? (← kv ws "cap")
+  -- discards first: a job is rejected before anything else can happen to it in the same step
+  pure (builds ++ discs ++ accs ++ starts ++ hooks ++ [Ev.snap (up == "1") q act cap live])
+
+def opEvents : Op → List Ev
+  | .dispatch id key _ _ acc => [.dispatched id key acc]
+  | .finish aid ok => [if ok then .finishOk aid else .died aid]
+  | .kill aid => [.died aid]
+  | .resize n => [.requested n]
+  | .settings d n => (match d with | some d => [.settings d] | none => []) ++ (match n with | some n => [.requested n] | none => [])
+  | .drain => [.drainReq]
+  | .release n => [.requested n]
+  | _ => []
+
+/-- feed one step of the implementation's history to the oracle; returns the newly violated clauses -/
+def judge (st : St) (evs : List Ev) (te : Nat) : St × List String :=
+  match st.o with
+  | none => (st, [])
+  | some o =>
+    let n := o.bad.length
+    let o' := evs.foldl oStep o
+    let o' := if rlOk o'.info o'.startsTotal te then o' else o'.flag "c15-ratelimit-window"
+    let fresh := (o'.bad.drop n).filter (·.startsWith st.only)
+    ({ st with o := some o' }, fresh.eraseDups)
 
 def needsFactory : Op → Bool
   | .dispatch .. | .resize _ | .settings .. | .drain => true
@@ -111,7 +169,14 @@ def step (st : St) (op impl : String) : St × StepOut :=
       | none => (st, { model := "bad-case" })
       | some c =>
         let w := (init c).stepOp .nop t0 tq te
-        ({ w := some w }, { model := render w 0 })
+        let info : Info := { router := c.cfg.router, prioQueue := c.cfg.prioQueue, hasHandler := c.cfg.hasHandler,
+                             n := c.n, disc := c.disc, rl := c.rl }
+        let st := { st with w := some w, o := some (oInit info) }
+        match parseObs? impl with
+        | some evs =>
+          let (st, bad) := judge st evs te
+          (st, { model := render w 0, oracle := bad })
+        | none => (st, { model := render w 0, oracle := ["unparsable"] })
     | _ =>
       match st.w, parseOp? ws with
       | some w, some o =>
@@ -122,9 +187,14 @@ def step (st : St) (op impl : String) : St × StepOut :=
         let m := render w' n ++ (if sendfail then " sendfail" else "") ++ (if noblock then " noblock" else "")
         let nt := (w'.env.log.drop n).any fun
           | .discard .. => true | .build .. => true | .lost .. => true | .hook _ => true | _ => false
-        ({ w := some w' }, { model := m, nontrivial := nt })
+        let st := { st with w := some w' }
+        match parseObs? impl with
+        | some evs =>
+          let (st, bad) := judge st (opEvents o ++ evs) te
+          (st, { model := m, oracle := bad, nontrivial := nt })
+        | none => (st, { model := m, oracle := ["unparsable"], nontrivial := nt })
       | _, _ => (st, { model := "bad-op" })
 
-def run (ops impl : Array String) : IO Tally := replay ({} : St) step ops impl
+def run (only : String) (ops impl : Array String) : IO Tally := replay ({ only } : St) step ops impl
 
 end Driver.Factory
